@@ -344,17 +344,8 @@ def parseWSize : Parser WindowSize :=
        prefixNum ['%'] u16Max .mod,
        fun s => (number u16Max s).map fun (v, r) => (.value v, r)]
 
-/-- `preceded(tag("?"), map(digit1, |s| s.parse::<u8>().unwrap_or(0))).map(Unknown)` -/
-def optUnknown : Parser TcpOption := fun s =>
-  match tag ['?'] s with
-  | none => none
-  | some (_, r) =>
-    match digit1 r with
-    | none => none
-    | some (d, r) => some (.unknown ((parseMax u8Max d).getD 0), r)
-
 def parseOpt : Parser TcpOption :=
-  alt [prefixNum ['e', 'o', 'l', '+'] u8Max .eol, altTags plainOptTable, optUnknown]
+  alt [prefixNum ['e', 'o', 'l', '+'] u8Max .eol, altTags plainOptTable, prefixNum ['?'] u8Max .unknown]
 
 /-- `alt((tag("*").map(|_| None), map_res(digit1, …Some)))` -/
 def optNum (max : Nat) : Parser (Option Nat) :=
@@ -405,7 +396,7 @@ def parseHeaderL : Parser HeaderL := fun s =>
   match opt (tag ['?']) s with
   | none => none
   | some (o, s) =>
-    match many0 isNameChar s with
+    match many1 isNameChar s with
     | none => none
     | some (name, s) =>
       match opt bracketValue s with
@@ -416,7 +407,7 @@ def parseHeaderL : Parser HeaderL := fun s =>
 def parseHttpSigRawL : Parser HttpSigL := fun s => do
   let (version, s) ← parseHttpVersion s
   let (_, s) ← colon s
-  let (horder, s) ← sepList1 comma parseHeaderL s
+  let (horder, s) ← sepList0 comma parseHeaderL s
   let (_, s) ← colon s
   let (habsent, s) ← opt (sepList0 comma parseHeaderL) s
   let (_, s) ← colon s
@@ -530,16 +521,16 @@ def parseClasses : Parser (List Str) := fun s => do
   let (_, s) ← space0 s
   sepList0 comma alphanumeric1 s
 
-/-- `(alphanumeric1, space0, opt(preceded((space0, "=", space0), alphanumeric1)))` -/
-def parseKeyValue : Parser (Str × Option Str) := fun s => do
-  let (name, s) ← alphanumeric1 s
-  let (_, s) ← space0 s
-  let (v, s) ← opt (fun s => do
-      let (_, s) ← space0 s
-      let (_, s) ← tag ['='] s
-      let (_, s) ← space0 s
-      alphanumeric1 s) s
-  pure ((name, v), s)
+def isRuleNameChar (c : Char) : Bool := c != ',' && c != '='
+
+/-- `pair(take_while1(|c| c != ',' && c != '='), opt(preceded(tag("=["), terminated(take_until("]"), char(']')))))` -/
+def parseKeyValue : Parser (Str × Option Str) := fun s =>
+  match many1 isRuleNameChar s with
+  | none => none
+  | some (name, s) =>
+    match opt bracketValue s with
+    | none => none
+    | some (v, s) => some ((name, v), s)
 
 def parseUaOs : Parser (List (Str × Option Str)) := fun s => do
   let (_, s) ← tag uaOsKw s
@@ -645,8 +636,8 @@ def loadLine (st : LoadState) (raw : Str) : Except LoadErr LoadState :=
     | none => .error .classes
   else if (stripPrefix uaOsKw line).isSome then
     match parseUaOs line with
-    | some (us, _) => .ok { st with db := { st.db with uaOs := st.db.uaOs ++ us } }
-    | none => .error .uaOs
+    | some (us, []) => .ok { st with db := { st.db with uaOs := st.db.uaOs ++ us } }
+    | _ => .error .uaOs   -- parse error, or an unparsed rest of the line
   else if line.head? = some '[' ∧ line.getLast? = some ']' then
     match parseModule line with
     | some (md, _) => .ok { st with curMod := some md }
